@@ -167,4 +167,15 @@ def r4_small_graphs(a, tier):
     return rule_all_small_graphs(a, 'C16.R4', tier)
 
 
-RULES = [r_chain, r1a, r1b, r2_guarded_marking, r3_error_condition, r4_small_graphs]
+def r5_seed_store_owners(a, tier):
+    """the guards and seeds of active left recursion are removed only by their owners; a pruner that deletes the seed of an enclosing rule makes it re-enter without bound"""
+    from . import c04
+    rep = c04.r2_ownership(a, tier)
+    rep.rule = 'C16.R5'
+    for f in rep.findings:
+        f.rule = 'C16.R5'
+    rep.text = '[= C04.R2] ' + rep.text
+    return rep
+
+
+RULES = [r_chain, r1a, r1b, r2_guarded_marking, r3_error_condition, r4_small_graphs, r5_seed_store_owners]
